@@ -95,13 +95,25 @@ theorem send_only_established_partial (cfg : Cfg) (rib : Bool) (evs : List Event
 
 def plain : Cfg := { passive := false, maxAttempts := 0, hold0 := false, graceful := false }
 
-/-- **finding (F30 family).** `shutdown()` / `remove()` drop `peer.proto` under the main loop;
-    an incoming connection adopted before the loop's next iteration gets the queued
-    ROUTE-REFRESH — written in state IDLE on a connection on which no OPEN was ever sent.
-    Replayed on the real `Peer` by `corpus/C05/f30-refresh-in-idle.json`. -/
+/-- **finding (F30 family, what is left of it).** `shutdown()` / `remove()` drop `peer.proto`
+    under the main loop.  Since /repo 4250e99 a stopped peer refuses incoming connections — but
+    `reestablish()` / `teardown()` re-arm `_restart`, and a connection adopted then, before the old
+    loop's next iteration, still gets the queued ROUTE-REFRESH: written in state IDLE on a
+    connection on which no OPEN was ever sent.  Replayed on the real `Peer` by
+    `corpus/C05/f30-refresh-in-idle-rearmed.json`. -/
 theorem send_only_established_fails :
     Out.send 2 .refresh .idle ∈
-      trace plain false [.start, .connectOk, .recv 1 (.openOk false), .recv 1 .keepalive, .queueRefresh, .stop, .incoming, .tick] := by
+      trace plain false [.start, .connectOk, .recv 1 (.openOk false), .recv 1 .keepalive, .queueRefresh, .stop,
+        .reestablish, .incoming, .tick] := by
+  decide
+
+/-- the repaired shape: without the re-arming the stopped peer refuses the connection and the old
+    loop ends without writing anything. -/
+example :
+    (run (step (run (init plain false) [.start, .connectOk, .recv 1 (.openOk false), .recv 1 .keepalive, .queueRefresh, .stop]).1
+      .incoming).1 [.tick]).2 = [.fsm .idle .idle] ∧
+    (step (run (init plain false) [.start, .connectOk, .recv 1 (.openOk false), .recv 1 .keepalive, .queueRefresh, .stop]).1
+      .incoming).2 = [.reject 2, .close 2] := by
   decide
 
 /-- **C05, leaving a connected state (full, as a state invariant).** In every reachable state in
